@@ -86,6 +86,28 @@ def run(ctx, b, broken):
         for n in range(1, N + 1):
             for t in itertools.product(ALPHA, repeat=n):
                 one(pre + " ".join(t), "exhaustive-short", n >= 2)
+    # deeper exhaustive enumeration over small alphabets chosen per context (specifiers in struct bodies, operands of sizeof,
+    # sub-statement positions, file scope): every sequence of up to 4 (thorough: 5) tokens
+    DEEP = [([("struct S { ", " } ;"), ("struct S { ", " ; } ;")], ["_Atomic", "(", ")", "int", ";", "T", "*", ":", "3", "const", "struct U", "_Alignas", ","]),
+            ([("int x = sizeof ", " ;"), ("int x = sizeof ( ", " ) ;"), ("void f ( void ) { x = ( ", " ) y ; }")],
+             ["(", ")", "_Alignas", "_Atomic", "int", "8", "*", "x", "const", "[", "]", "{", "}"]),
+            ([("void f ( void ) { if ( x ) ", " }"), ("void f ( void ) { while ( x ) _Static_assert ( ", " ; }")],
+             ["_Static_assert", "(", ")", "1", ",", "\"a\"", ";", "x", "else", "{", "}", "int", "T :"]),
+            ([("typedef int T ; ", ""), ("typedef int T ; ", " ;")], ["_Atomic", "(", ")", "int", ";", "T", "*", "typedef", "x", ",", "[", "]", "="])]
+    DL = 4 if ctx.tier == "quick" else 5
+    for ctxs_, alpha in DEEP:
+        for pre, suf in ctxs_:
+            for n in range(3, DL + 1):
+                for t in itertools.product(alpha, repeat=n):
+                    one(pre + " ".join(t) + suf, "deep-small-alphabet", True)
+    for text, _valid in ZOO:
+        one(text, "zoo", True)
+        toks_z = text.split(" ")
+        for _ in range(8):
+            m = toks_z
+            for _ in range(ctx.rng.randint(1, 2)):
+                m = mutate(m, ctx.rng)
+            one(" ".join(m), "zoo-mutants", True)
     # every literal spelling in every position where the grammar takes a constant expression
     for ctxt in LIT_CONTEXTS:
         for lit in LITERALS:
